@@ -222,3 +222,60 @@ pub fn def_check_f64(
         }
     }
 }
+
+/// ultra-long variant (past 2^16 and 2^17 updates): N in min..min+7 (1 in 4: up to 32), ints = [seed, len, shape]
+pub fn def_strategy_ultra(vd: DefView) -> impl Fn(Tier) -> BoxedStrategy<Case> + Send + Sync {
+    move |tier: Tier| {
+        let mk = vd.mk;
+        (prop_oneof![3 => vd.min_n..=vd.min_n + 7, 1 => vd.min_n + 8..=32usize], any::<u64>(), 0i64..4)
+            .prop_map(move |(n, seed, shape)| Case { spec: Some(mk(n)), ints: vec![(seed >> 1) as i64, tier.pick(135_000, 1_100_000) as i64, shape], a: Rat(1, 1), ..Default::default() })
+            .boxed()
+    }
+}
+pub const ULTRA_RULE: &str = "ultra-long histories: 135 000 values (thorough 1.1e6; past 2^16 and 2^17 updates, where a narrowed counter wraps or saturates) on the 1/8 grid derived from a generated seed (wide noise; walk with 257-step plateaus; zero stretches; ties around a level), N from the view's minimum to +7 (1 in 4: up to 32); the crate's code runs at the exact scalar and the batch definition is evaluated from the last N+3 values at 12..120 checkpoints (every power of two from 2^16 on, N+1 steps after it, the last steps, seeded steps; steps whose last N+1 values are all equal are skipped where the view holds its previous output). Non-trivial: >= 8 checkpoints compared.";
+/// exact leg over an ultra stream: the definition is evaluated from the last N+3 values at the checkpoints only (every view
+/// using this is a function of the last N+1 values, or holds its previous output on a flat window: those checkpoints are skipped)
+pub fn def_check_ultra_q(id: String, vd: DefView) -> impl Fn(&Case) -> Verdict + Send + Sync {
+    use sliding_features::View;
+    move |case: &Case| {
+        let spec = case.spec();
+        let n = spec.own_windows().first().copied().unwrap_or(1);
+        let (seed, len, shape) = (case.ints[0] as u64, case.ints[1] as usize, case.ints[2]);
+        let ks: Vec<i64> = gen::ultra_stream(seed, len, shape).into_iter().map(|k| if vd.positive { k.abs().max(1) } else { k }).collect();
+        let cps = gen::ultra_checkpoints(seed, len, n, (400_000 / (n * n * n / 4 + 16 * n)).clamp(12, 120));
+        let mut v = crate::catalog::build::<crate::q::Q>(spec);
+        let mut at = Vec::with_capacity(cps.len());
+        let mut ci = 0;
+        for (t, k) in ks.iter().enumerate() {
+            v.update(crate::q::Q::from_ratio(R::new((*k).into(), 8.into())));
+            if ci < cps.len() && cps[ci] == t {
+                at.push((t, v.last().map(|o| o.extract())));
+                ci += 1;
+            }
+        }
+        let mag = R::from_integer((ks.iter().map(|k| k.abs()).max().unwrap_or(0)).into()) / R::from_integer(8.into()) + R::from_integer(1.into());
+        let mut compared = 0;
+        let mut skipped = 0;
+        for (t, out) in at {
+            if t < n + 2 {
+                continue;
+            }
+            let h: Vec<R> = ks[t - n - 2..=t].iter().map(|k| R::new((*k).into(), 8.into())).collect();
+            if h[1..].windows(2).all(|p| p[0] == p[1]) {
+                skipped += 1;
+                continue;
+            }
+            let want = (vd.reference)(&h, n).pop().unwrap();
+            let tol = |_: usize| if vd.irr { tol_q_irr(&(&mag * &mag)) } else { tol_q(&mag) };
+            if let Err(m) = compare_q(&[out], &[want], &tol) {
+                return Verdict::fail(format!("{id}|{}", m.aspect), format!("{} [Q] after {} updates ({}): {}; the last {} inputs were {} (stream: seed {seed}, len {len}, shape {shape}, grid 1/8)", spec.show(), t + 1, m.aspect, m.detail, h.len(), show_bigs(&h)));
+            }
+            compared += 1;
+        }
+        let mut l = vec![format!("shape_{shape}")];
+        if skipped > 0 {
+            l.push("flat_checkpoints_skipped".into());
+        }
+        Verdict::pass(compared >= 8 && len > 70_000, l)
+    }
+}
